@@ -62,6 +62,27 @@ _PATCHED = []
 CDRAW_STRIDE = 10 ** 15 + 37     # the model's count for one number drawn by the caller (keeps stream positions apart)
 
 
+AFFINE_CALLS = []
+
+
+def patch_affine():
+    """record the arguments of every `affine_transform` call the infinite layer makes (the sub-pixel read-out request)"""
+    import hcipy.atmosphere.infinite_atmospheric_layer as mod
+    if getattr(mod.affine_transform, '_verif', False):
+        return
+    orig = mod.affine_transform
+
+    def rec(input, matrix, offset=0.0, *a, **kw):
+        try:
+            AFFINE_CALLS.append({'matrix': [float(x) for x in np.asarray(matrix).ravel()], 'offset': [float(x) for x in np.asarray(offset).ravel()],
+                                 'mode': kw.get('mode'), 'order': kw.get('order'), 'shape': tuple(np.asarray(input).shape), 'extra': len(a)})
+        except Exception as e:  # noqa
+            AFFINE_CALLS.append({'error': '%s: %s' % (type(e).__name__, e)})
+        return orig(input, matrix, offset, *a, **kw)
+    rec._verif = True
+    mod.affine_transform = rec
+
+
 def patch_make_noise():
     """record, at class level (the constructor already calls it), the generator state `_make_noise` draws from and the
     parameters it uses: the observable behind the model's `noise=` / `npar=`"""
@@ -152,10 +173,16 @@ def run_layer(case, layer, k=1.0):
     atm = None
     obs = []
     arnew = []
+    try:
+        patch_affine()
+        affine_ok = True
+    except Exception:  # noqa
+        affine_ok = False
     for op in case['ops']:
         o = {'op': op, 'status': 'ok'}
         del ext[:]
         del arnew[:]
+        del AFFINE_CALLS[:]
         try:
             if op[0] == 'evolve':
                 layer.evolve_until(op[1])
@@ -205,6 +232,7 @@ def run_layer(case, layer, k=1.0):
         o['orig'] = rng_state(layer._original_rng)
         o['ext'] = list(ext)
         o['ar'] = list(arnew)
+        o['req'] = list(AFFINE_CALLS) if affine_ok else None
         o['cn2'] = float(layer.Cn_squared)
         o['L0'] = float(layer.L0)
         o['vel'] = [float(x) for x in np.asarray(layer.velocity).ravel()]
@@ -312,6 +340,9 @@ class Oracle:
                     if o['status'] != 'ok':
                         self.fail('raises', '%s(%r) raised %s on a %s layer' % (op[0], op[1], o['status'], where))
                         return
+                    if float(op[1]) == clock:
+                        self.cnt('evolve_until(t) with t = the current time%s' % (
+                            ' right after a parameter change' if not moved_since_set else ' right after reset' if not seq else ''))
                     clock = float(op[1])
                     seq.append(clock)
                     moved_since_set = True
@@ -687,6 +718,25 @@ def compare_layer(ctx, case, obs, out, idx):
                         'present' if o['valid'] else 'None', 'present' if o['cache'] else 'None')), key='fin-lazy'); return
                 if o['op'][0] == 'read':
                     shown.append((kv['shown'], o['phase1']))
+        if case['kind'] == 'infinite' and o['op'][0] in ('evolve', 'sett') and 'req' in kv:
+            # the sub-pixel read-out request: what the layer really hands to scipy's affine_transform against the model's interpRequest
+            calls = o.get('req')
+            want = parse_rat_list(kv['req'])
+            if calls is None or any('error' in c for c in calls):
+                ctx.disagree(stream, dict(detail, impl='the affine_transform call could not be observed: %r' % (calls,)), key='inf-interp-request'); return
+            if not case['interp']:
+                if calls:
+                    ctx.disagree(stream, dict(detail, impl='affine_transform called without use_interpolation'), key='inf-interp-request'); return
+            else:
+                good = len(calls) == 1 and calls[0]['matrix'] == [1.0, 1.0] and calls[0]['mode'] == 'nearest' and calls[0]['order'] == 5 and \
+                    calls[0]['extra'] == 0 and calls[0]['shape'] == (case['ny'], case['nx']) and kv.get('reqc') == '1,1,5,nearest' and \
+                    len(calls[0]['offset']) == 2 and all(abs(a - float(b)) <= 1e-9 for a, b in zip(calls[0]['offset'], want))
+                ctx.count('infinite:read-out requests (affine_transform calls) compared with interpRequest')
+                if good and any(b != 0 for b in want):
+                    ctx.count('infinite:read-out requests with a non-zero offset')
+                if not good:
+                    ctx.disagree(stream, dict(detail, model='interpRequest offset (row, column) %s, matrix/order/mode %s' % (kv['req'], kv.get('reqc')),
+                                              impl='affine_transform calls %r' % (calls,)), key='inf-interp-request'); return
         if case['kind'] == 'infinite':
             if o['op'][0] == 'reset':
                 hist = 0
@@ -1044,6 +1094,87 @@ def gen_layer_case(rng, kind, big):
     return decorate(rng, case)
 
 
+SAME_TIME_MOTIFS = ('twice', 'reset-zero', 'setter-same', 'setter-reset-zero', 'sett-same', 'back-and-same', 'none-zero')
+
+
+def gen_sametime_case(rng, kind, big):
+    """repeated / equal target times on a single layer: evolve_until(t) (or `t = t`) with t EXACTLY the layer's current time — twice in
+    a row, 0 right after reset() / evolve_until(None), after a parameter (Cn^2, outer scale, velocity) was changed on the running
+    layer, after a backwards step of the finite layer — with a read after each; a call that is skipped or half-done because "the layer
+    is already there" shows as a wrong clock, a stale screen or a screen that is not the one of a fresh layer."""
+    nx, ny, dx, dy = gen_geometry(rng, big)
+    vel = gen_wind(rng, dx, dy)
+    ext = max(nx * dx, ny * dy)
+    case = {'kind': kind, 'nx': nx, 'ny': ny, 'dx': dx, 'dy': dy, 'vel': vel,
+            'seed': int(rng.integers(0, 2 ** 31)), 'cn2': float(rng.integers(1, 64)) * 2.0 ** -44,
+            'L0': float(rng.choice([4.0, 10.0, 25.0])) * ext / 4.0,
+            'k': float(rng.choice([0, 0, 2.0, 3.0])), 'interp': bool(rng.random() < 0.5), 'family': 'same-time', 'motifs': []}
+    frac = rng.random() < 0.4
+    ops = []
+    t = 0.0
+    live = False
+
+    def read():
+        ops.append(['read', float(rng.choice([1.0, 1.0, 0.5, 2.0]))])
+
+    def setter():
+        kind_ = str(rng.choice(['setcn2', 'setcn2', 'setl0', 'setvel'] if kind == 'finite' else ['setcn2', 'setl0']))
+        if kind_ == 'setcn2':
+            ops.append(['setcn2', float(rng.integers(1, 64)) * 2.0 ** -44 * float(rng.choice([1.0, 4.0, 0.25]))])
+        elif kind_ == 'setl0':
+            ops.append(['setl0', float(rng.choice([3.0, 6.0, 12.0, 20.0])) * ext / 4.0, str(rng.choice(['L0', 'outer_scale']))])
+        else:
+            ops.append(['setvel', gen_wind(rng, dx, dy)])
+    for _ in range(int(rng.integers(2, 6))):
+        m = str(rng.choice(SAME_TIME_MOTIFS))
+        if m == 'back-and-same' and kind != 'finite':
+            m = 'twice'
+        if m == 'none-zero' and kind != 'infinite':
+            m = 'reset-zero'
+        case['motifs'].append(m)
+        if m in ('twice', 'setter-same', 'sett-same', 'back-and-same') and (t == 0.0 or rng.random() < 0.5):
+            t = t + float(rng.choice([1, 1, 2, 3])) + (float(rng.integers(0, 4)) / 4.0 if frac else 0.0)
+            ops.append(['evolve', t])
+            if rng.random() < 0.7:
+                read()
+        if m == 'twice':
+            ops.append(['evolve', t]); read()
+            if rng.random() < 0.3:
+                ops.append(['sett', t]); read()
+        elif m == 'sett-same':
+            ops.append(['sett', t]); read()
+        elif m == 'reset-zero':
+            ops.append(['reset', False]); t = 0.0
+            if rng.random() < 0.4:
+                read()
+            ops.append([str(rng.choice(['evolve', 'sett'])), 0.0]); read()
+        elif m == 'none-zero':
+            ops.append(['reset', False, 'none']); t = 0.0
+            ops.append(['evolve', 0.0]); read()
+        elif m == 'setter-same':
+            setter(); live = True
+            if rng.random() < 0.4:
+                read()
+            ops.append(['evolve', t]); read()
+            if rng.random() < 0.3:
+                ops.append(['evolve', t]); read()
+        elif m == 'setter-reset-zero':
+            setter()
+            ops.append(['reset', False]); t = 0.0
+            ops.append(['evolve', 0.0]); read()
+        elif m == 'back-and-same':
+            t = float(rng.integers(0, int(t) + 1))
+            ops.append(['evolve', t]); read()
+            ops.append(['evolve', t]); read()
+    case['ops'] = ops
+    decorate(rng, case, live=False)
+    if live:
+        if kind == 'finite':
+            case['heap'] = True          # parameter changes on the running finite layer: the heap model (lazy noise, cached screen)
+        case['live'] = True
+    return case
+
+
 def gen_late_case(rng, kind, style, big):
     """time scales: a long run (large t0, large accumulated displacement) followed by many small steps.
     'huge' (finite layer): 16..64 px per unit time for 512..2048 units, then steps of one pixel or a quarter pixel.
@@ -1252,6 +1383,8 @@ def handle(ctx, case, batch):
         kinds = ''.join(l['kind'][0] for l in case['layers'])
         ctx.count('atmos:layers %s' % ('all finite' if 'i' not in kinds else 'all infinite' if 'f' not in kinds else 'mixed'))
         ctx.count('atmos:%d layers' % len(kinds))
+        for m in case.get('motifs', []):
+            ctx.count('atmos:stale-clock motif %s' % m)
         for k, n in counts.items():
             ctx.count(k, n)
         for key, what in bad:
@@ -1282,6 +1415,8 @@ def handle(ctx, case, batch):
             ctx.count('%s:%s' % (case['kind'], case['style']))
             ctx.count('%s:late small steps' % case['kind'], sum(1 for op in case['ops'] if op[0] == 'evolve') - 1)
         ctx.count('%s:model %s' % (case['kind'], 'heap (hfin/hinf)' if case.get('heap') else 'value (fin/inf)'))
+        for m in case.get('motifs', []):
+            ctx.count('%s:same-time motif %s' % (case['kind'], m))
         if case.get('seedobj'):
             ctx.count('%s:seed is a %s object' % (case['kind'], 'BitGenerator' if case['seedobj'] == 'bitgen' else 'Generator'))
             ctx.count('%s:caller draws' % case['kind'], sum(1 for op in case['ops'] if op[0] == 'cdraw'))
@@ -1358,7 +1493,7 @@ def run(ctx):
     ctx.assumptions += ['numpy Generator: deepcopy yields an equal independent stream; equal states give equal draws',
                         'float arithmetic on the generated dyadic pixel sizes, velocities and times is exact',
                         'FastFourierTransform / MatrixFourierTransform honour the zero of the grid they are built on (C01), used by the displaced-grid oracle']
-    n = ctx.scale(300, 8000)
+    n = ctx.scale(300, 6000)
     cases = [copy.deepcopy(c) for c in DIRECTED]
     big = ctx.tier == 'thorough'
     for i in range(n):
@@ -1375,8 +1510,12 @@ def run(ctx):
         else:
             cases.append(gen_noise_case(ctx.rng, big and i % 3 == 0))
     cases += [copy.deepcopy(c) for c in c15_atmos.DIRECTED]
-    for i in range(ctx.scale(30, 400)):
+    for i in range(ctx.scale(30, 300)):
         cases.append(c15_atmos.gen_atmos_case(ctx.rng, big and i % 3 == 0))
+    for i in range(ctx.scale(24, 200)):
+        cases.append(c15_atmos.gen_stale_case(ctx.rng, big and i % 3 == 0))
+    for i in range(ctx.scale(20, 160)):
+        cases.append(gen_sametime_case(ctx.rng, 'finite' if i % 2 == 0 else 'infinite', big and i % 3 == 0))
     batch = []
     for case in cases:
         handle(ctx, case, batch)
